@@ -404,21 +404,6 @@ pub fn build_world<'a>(open_windows: u8, symbols: &[String], with_inbound: bool)
     env.mock_all_auths();
     TokenClient::new(&env, &t1).transfer(&user_a, &w.gas.id, &40_000);
     TokenClient::new(&env, &t2.address).transfer(&user_a, &w.gas.id, &40_000);
-    // contracts left in the upgraded-but-not-migrated state by their owners
-    let h = BytesN::from_array(&env, &empty_wasm_hash());
-    env.mock_all_auths();
-    if open_windows & 1 != 0 {
-        w.gw.client.upgrade(&h);
-    }
-    if open_windows & 2 != 0 {
-        w.gas.client.upgrade(&h);
-    }
-    if open_windows & 4 != 0 {
-        w.its.client.upgrade(&h);
-    }
-    if open_windows & 8 != 0 {
-        t2.upgrade(&h);
-    }
     // second gas service: the operators contract is its collector
     let gas2_owner = Address::generate(&env);
     let gas2 = env.register(axelar_gas_service::AxelarGasService, (&gas2_owner, &ops_id));
@@ -463,6 +448,21 @@ pub fn build_world<'a>(open_windows: u8, symbols: &[String], with_inbound: bool)
     } else {
         None
     };
+    // contracts left in the upgraded-but-not-migrated state by their owners
+    let h = BytesN::from_array(&env, &empty_wasm_hash());
+    env.mock_all_auths();
+    if open_windows & 1 != 0 {
+        w.gw.client.upgrade(&h);
+    }
+    if open_windows & 2 != 0 {
+        w.gas.client.upgrade(&h);
+    }
+    if open_windows & 4 != 0 {
+        w.its.client.upgrade(&h);
+    }
+    if open_windows & 8 != 0 {
+        t2.upgrade(&h);
+    }
     let accounts = vec![
         w.gw.owner.clone(),
         w.gw.operator.clone(),
